@@ -383,6 +383,12 @@ fn forked(case: &Val) -> Val {
     let mut items = case.l().to_vec();
     items[0] = Val::N(1);
     let child_case = Val::L(items);
+    // the case's encoder is BUILT IN THE PARENT (as an encoder of a logger set up before the fork is) and used in
+    // the child: process-related values are those of the process that encodes
+    {
+        let pattern = cps(&case.l()[1]);
+        *PREBUILT.lock().unwrap() = std::panic::catch_unwind(|| PatternEncoder::new(&pattern)).ok();
+    }
     let mut fds = [0i32; 2];
     if unsafe { libc::pipe(fds.as_mut_ptr()) } != 0 {
         panic!("pipe");
@@ -410,6 +416,7 @@ fn forked(case: &Val) -> Val {
         unsafe { libc::_exit(0) };
     }
     unsafe { libc::close(fds[1]) };
+    PREBUILT.lock().unwrap().take();
     let mut got = Vec::new();
     let mut buf = [0u8; 4096];
     loop {
